@@ -309,4 +309,176 @@ theorem lexNumber_ok {n : Int} {l : Lexer} (hg : Good n l) :
       · exact h
     exact emitInside_sat (by lx) (by lx) (by lx) (by lx) (by lx)
 
+
+/-! ### lexHeaderParam -/
+
+theorem headerTypeLoop_sat {n : Int} {Q : Int × Lexer × Int → Prop} (l0 : Lexer) : ∀ (k : Nat) (l : Lexer) (lns : Int),
+    l.rem = k → l.len = n → 0 ≤ l.pos → l.pos ≤ n → l0.pos ≤ lns → lns ≤ l.pos →
+    (∀ ch l' lns', l'.len = n → l'.start = l.start → l0.pos ≤ lns' → lns' ≤ l'.pos → l'.pos ≤ n → Q (ch, l', lns')) →
+    Sat (headerTypeLoop l lns) Q := by
+  intro k
+  induction k using Nat.strongRecOn with
+  | _ k ih =>
+    intro l lns hk hn h0 h2 hl0 hll hq
+    unfold headerTypeLoop
+    split
+    · rename_i heq
+      obtain ⟨_, _, h, _⟩ := next_ex (l := l) (by lx)
+      rw [heq] at h; exact absurd h (by simp)
+    · rename_i ch l1 hnx
+      obtain ⟨hl1, hs1, hf1⟩ := next_facts hnx (by lx)
+      unfold NextFacts at hf1
+      split
+      · exact Sat.ofSome (hq _ _ _ (by lx) hs1 (by lx) (by lx) (by lx))
+      split
+      · exact Sat.ofSome (hq _ _ _ (by lx) hs1 (by lx) (by lx) (by lx))
+      · apply ih l1.rem (by simp only [Lexer.rem] at hk ⊢; lx) l1 _ rfl (by lx) (by lx) (by lx)
+          (by split <;> lx) (by split <;> lx)
+        intro ch' l' lns' a b c d e
+        exact hq ch' l' lns' a (b.trans hs1) c d e
+
+theorem lexHeaderParam_ok {n : Int} {l : Lexer} (hg : Good n l) :
+    Sat (lexHeaderParam l) (Post n .headerParam l) := by
+  obtain ⟨hn, hs0, hsp, hpn⟩ := hg
+  unfold lexHeaderParam
+  apply Sat.bind
+  apply hasPrefixAt_sat (by lx) (by lx)
+  intro pre hpre
+  split
+  · exact errorf_sat
+  · rename_i hp
+    have hp' : pre = true := by simpa using hp
+    have hlen := hpre hp'
+    simp only [kwParam, List.length_cons, List.length_nil] at hlen
+    nx q l1 hl1 hs1 hf1
+    apply Sat.bind
+    have hem : Sat (if q = 63 then l1.emit .tHeaderOptionalParam else l1.backup.emit .tHeaderParam)
+        (fun l2 => l2.len = n ∧ l2.start = l2.pos ∧ l.pos + 5 ≤ l2.pos ∧ l2.pos ≤ n) := by
+      split
+      · em l2 hl2 hp2 hs2 hw2
+        exact ⟨by lx, by lx, by lx, by lx⟩
+      · em l2 hl2 hp2 hs2 hw2
+        exact ⟨by lx, by lx, by lx, by lx⟩
+    apply hem.mono
+    intro l2 ⟨hl2, hs2, hp2, hn2⟩
+    apply Sat.bind
+    apply skipSpace_sat (by lx) (by lx)
+    intro l3 hl3 hs3 hp3 hn3
+    apply Sat.bind
+    apply scanWhile_sat _ _ _ (by lx) (by lx)
+    intro r4 l4 hl4 hs4 _ hf4
+    unfold ScanFacts at hf4
+    dsimp only
+    apply Sat.bind
+    em l5 hl5 hp5 hs5 hw5
+    apply Sat.bind
+    apply skipSpace_sat (by lx) (by lx)
+    intro l6 hl6 hs6 hp6 hn6
+    nx c l7 hl7 hs7 hf7
+    split
+    · exact errorf_sat
+    · apply Sat.bind
+      em l8 hl8 hp8 hs8 hw8
+      apply Sat.bind
+      apply skipSpace_sat (by lx) (by lx)
+      intro l9 hl9 hs9 hp9 hn9
+      apply Sat.bind
+      apply headerTypeLoop_sat l9 l9.rem l9 l9.pos rfl (by lx) (by lx) (by lx) (by lx) (by lx)
+      intro ch l10 lns hl10 hs10 hlo hhi hn10
+      dsimp only
+      split
+      · exact errorf_sat
+      · apply Sat.bind
+        em l11 hl11 hp11 hs11 hw11
+        apply Sat.bind
+        apply skipSpace_sat (by lx) (by lx)
+        intro l12 hl12 hs12 hp12 hn12
+        fin
+
+/-! ### lexCss -/
+
+theorem lexCss_ok {n : Int} {l : Lexer} (hg : Good n l) :
+    Sat (lexCss l) (Post n .css l) := by
+  obtain ⟨hn, hs0, hsp, hpn⟩ := hg
+  unfold lexCss
+  nx r1 l1 hl1 hs1 hf1
+  apply Sat.bind
+  apply scanWhile_sat _ _ _ (by lx) (by lx)
+  intro ch l2 hl2 hs2 hch hf2
+  unfold ScanFacts at hf2
+  dsimp only
+  split
+  · exact errorf_sat
+  · rename_i hne
+    simp only [eof] at hne
+    apply Sat.bind
+    em l3 hl3 hp3 hs3 hw3
+    nx r4 l4 hl4 hs4 hf4
+    apply Sat.bind
+    apply badDoubleClose_sat (by lx) (by lx)
+    intro bad l5 hl5 hs5 hp5 hn5
+    dsimp only
+    split
+    · exact errorf_sat
+    · apply Sat.bind
+      em l6 hl6 hp6 hs6 hw6
+      fin
+
+/-! ### lexLiteral -/
+
+theorem lexLiteral_ok {n : Int} {l : Lexer} (hg : Good n l) :
+    Sat (lexLiteral l) (Post n .literal l) := by
+  obtain ⟨hn, hs0, hsp, hpn⟩ := hg
+  unfold lexLiteral
+  apply Sat.bind
+  apply scanWhile_sat _ _ _ (by lx) (by lx)
+  intro ch l1 hl1 hs1 _ hf1
+  unfold ScanFacts at hf1
+  dsimp only
+  split
+  · exact errorf_sat
+  · rename_i hch
+    have hch' : ch = 125 := by simpa using hch
+    apply Sat.bind
+    apply badDoubleClose_sat (by lx) (by lx)
+    intro bad l2 hl2 hs2 hp2 hn2
+    dsimp only
+    split
+    · exact errorf_sat
+    · apply Sat.bind
+      em l3 hl3 hp3 hs3 hw3
+      apply Sat.bind
+      unfold sliceFrom
+      apply sliceOf_sat (by lx) (by lx) (by lx)
+      intro rest hrest
+      split
+      · exact errorf_sat
+      · rename_i i hi
+        have hle := stringsIndex_le _ _ _ hi
+        have hlen : ((if l3.doubleDelim = true then closeLiteral2 else closeLiteral1).length : Int) =
+            (if l3.doubleDelim = true then 2 else 1) + 8 + (if l3.doubleDelim = true then 2 else 1) := by
+          split <;> simp [closeLiteral1, closeLiteral2]
+        have hdpos : (0 : Int) ≤ (if l3.doubleDelim = true then 2 else 1) := by split <;> omega
+        generalize (if l3.doubleDelim = true then (2 : Int) else 1) = d at hlen hdpos ⊢
+        have hd : (i : Int) + (d + 8 + d) ≤ l3.len - l3.pos := by
+          rw [← hlen]; simp only [Lexer.len]; omega
+        have hd0 : 0 ≤ (i : Int) := Int.natCast_nonneg _
+        apply Sat.bind
+        have hem : Sat (if i > 0 then (l3.addPos ↑i).emit .tText else pure (l3.addPos ↑i))
+            (fun l4 => l4.len = n ∧ 0 ≤ l4.start ∧ l4.start ≤ l4.pos ∧ l4.pos = l3.pos + i) := by
+          split
+          · em l4 hl4 hp4 hs4 hw4
+            exact ⟨by lx, by lx, by lx, by lx⟩
+          · apply Sat.ret
+            exact ⟨by lx, by lx, by lx, by lx⟩
+        apply hem.mono
+        intro l4 ⟨hl4, hs4a, hs4b, hp4⟩
+        apply Sat.bind
+        em l5 hl5 hp5 hs5 hw5
+        apply Sat.bind
+        em l6 hl6 hp6 hs6 hw6
+        apply Sat.bind
+        em l7 hl7 hp7 hs7 hw7
+        fin
+
 end SoyVerif.Model.Lex
